@@ -6,18 +6,28 @@ REQUIRED = [
     "DaeVerif.C18.Props.ip_target_when_ip_mode_or_no_name_or_reserved",
     "DaeVerif.C18.Props.domain_mode_name_iff_genuine",
     "DaeVerif.C18.Props.domain_mode_otherwise_ip",
+    "DaeVerif.C18.Props.genuine_iff",
     "DaeVerif.C18.Props.domain_plus_name_unconditionally",
     "DaeVerif.C18.Props.domain_cao_name_and_reroute",
     "DaeVerif.C18.Props.domain_cao_routed_again_with_name",
+    "DaeVerif.C18.Props.domain_cao_route_failure",
+    "DaeVerif.C18.Props.route_consulted_at_name_only",
     "DaeVerif.C18.Props.no_reroute_keeps_outbound",
     "DaeVerif.C18.Props.ip_literal_normalised",
+    "DaeVerif.C18.Props.bracketed_literal_same_as_bare",
     "DaeVerif.C18.Props.carried_port_kept",
+    "DaeVerif.C18.Props.plain_name_joined",
     "DaeVerif.C18.Props.name_target_well_formed",
+    "DaeVerif.C18.Props.ip_literal_target_well_formed",
     "DaeVerif.C18.Props.ip_target_well_formed",
+    "DaeVerif.C18.Props.sniffed_plain_name",
+    "DaeVerif.C18.Props.sniffed_host_port",
+    "DaeVerif.C18.Props.sniffed_bracketed_literal",
     "DaeVerif.C18.Props.knowledge_only_from_resolution_within_ttl",
     "DaeVerif.C18.Props.knowledge_holds_until_original_ttl",
     "DaeVerif.C18.Props.real_set_only_from_positive_probe",
     "DaeVerif.C18.Props.genuine_name_has_witness",
+    "DaeVerif.C18.Props.negative_cached_name_not_used",
 ]
 
 
